@@ -2,6 +2,7 @@ package main
 
 import (
 	"fmt"
+	"strings"
 	"time"
 
 	hg "github.com/mosaicnetworks/babble/src/hashgraph"
@@ -122,7 +123,23 @@ func runThresholdEdits(cs CaseSpec) *CaseResult {
 			// a fresh Peer object with the same key, as decoded from an internal transaction
 			pc := peers.NewPeer(p.PubKeyHex, p.NetAddr, p.Moniker)
 			nt := &tracked{}
-			if rng.Intn(3) > 0 {
+			adding := rng.Intn(3) > 0
+			if adding && rng.Intn(3) == 0 {
+				// the same key in another spelling (a membership request decodes to the
+				// same key bytes and verifies whatever the case of its hex digits)
+				pc = peers.NewPeer(strings.ToLower(p.PubKeyHex), p.NetAddr, p.Moniker)
+				res.count("threshold_additions_under_another_spelling_of_the_key", 1)
+			}
+			if !adding {
+				// removals name the validator the way the set spells it (whether a
+				// removal under another spelling takes effect is C10's business)
+				for _, q := range src.ps.Peers {
+					if q.PubKeyString() == pc.PubKeyString() {
+						pc = peers.NewPeer(q.PubKeyHex, p.NetAddr, p.Moniker)
+					}
+				}
+			}
+			if adding {
 				nt.ps = src.ps.WithNewPeer(pc)
 				nt.model = append([]string{}, src.model...)
 				found := false
